@@ -146,6 +146,10 @@ func (l dirItemList) collectFiles() []fileItem {
 
 	for _, dir := range l {
 		for _, file := range dir.files {
+			if file.size == 0 {
+				continue // occupies no sectors, nothing to read
+			}
+
 			ret = append(ret, fileItem{
 				path: file.path,
 				size: file.size,
